@@ -29,35 +29,57 @@ const RC: [u64; 24] = [
     0x8000000080008008,
 ];
 
+/// rho rotation offsets and pi destination indices for lanes 1..24 in the order of the
+/// standard "walk" (x,y) -> (y, 2x+3y): derived once from the FIPS 202 definition.
+const fn rho_pi_tables() -> ([u32; 24], [usize; 24]) {
+    let mut rot = [0u32; 24];
+    let mut dst = [0usize; 24];
+    let (mut x, mut y) = (1usize, 0usize);
+    let mut t = 0;
+    while t < 24 {
+        rot[t] = (((t + 1) * (t + 2) / 2) % 64) as u32;
+        let nx = y;
+        let ny = (2 * x + 3 * y) % 5;
+        dst[t] = nx + 5 * ny;
+        x = nx;
+        y = ny;
+        t += 1;
+    }
+    (rot, dst)
+}
+const RP: ([u32; 24], [usize; 24]) = rho_pi_tables();
+
 fn keccak_f(a: &mut [u64; 25]) {
     for rc in RC.iter() {
         // theta
-        let mut c = [0u64; 5];
-        for x in 0..5 {
-            c[x] = a[x] ^ a[x + 5] ^ a[x + 10] ^ a[x + 15] ^ a[x + 20];
-        }
-        for x in 0..5 {
-            let d = c[(x + 4) % 5] ^ c[(x + 1) % 5].rotate_left(1);
-            for y in 0..5 {
-                a[x + 5 * y] ^= d;
+        let c0 = a[0] ^ a[5] ^ a[10] ^ a[15] ^ a[20];
+        let c1 = a[1] ^ a[6] ^ a[11] ^ a[16] ^ a[21];
+        let c2 = a[2] ^ a[7] ^ a[12] ^ a[17] ^ a[22];
+        let c3 = a[3] ^ a[8] ^ a[13] ^ a[18] ^ a[23];
+        let c4 = a[4] ^ a[9] ^ a[14] ^ a[19] ^ a[24];
+        let d = [c4 ^ c1.rotate_left(1), c0 ^ c2.rotate_left(1), c1 ^ c3.rotate_left(1), c2 ^ c4.rotate_left(1), c3 ^ c0.rotate_left(1)];
+        for y in 0..5 {
+            for x in 0..5 {
+                a[x + 5 * y] ^= d[x];
             }
         }
-        // rho and pi
+        // rho and pi: lane at the walk position t moves to dst[t], rotated by rot[t]
         let mut b = [0u64; 25];
-        let (mut x, mut y) = (1usize, 0usize);
         b[0] = a[0];
-        for t in 0..24u32 {
-            let r = ((t + 1) * (t + 2) / 2) % 64;
-            let (nx, ny) = (y, (2 * x + 3 * y) % 5);
-            b[nx + 5 * ny] = a[x + 5 * y].rotate_left(r);
-            x = nx;
-            y = ny;
+        let mut src = 1usize; // (x,y) = (1,0)
+        for t in 0..24 {
+            b[RP.1[t]] = a[src].rotate_left(RP.0[t]);
+            src = RP.1[t];
         }
         // chi
         for y in 0..5 {
-            for x in 0..5 {
-                a[x + 5 * y] = b[x + 5 * y] ^ ((!b[(x + 1) % 5 + 5 * y]) & b[(x + 2) % 5 + 5 * y]);
-            }
+            let r = 5 * y;
+            let (b0, b1, b2, b3, b4) = (b[r], b[r + 1], b[r + 2], b[r + 3], b[r + 4]);
+            a[r] = b0 ^ (!b1 & b2);
+            a[r + 1] = b1 ^ (!b2 & b3);
+            a[r + 2] = b2 ^ (!b3 & b4);
+            a[r + 3] = b3 ^ (!b4 & b0);
+            a[r + 4] = b4 ^ (!b0 & b1);
         }
         // iota
         a[0] ^= rc;
